@@ -47,7 +47,7 @@ def _ops(line):
 
 USES = {  # op -> indices of fields naming an existing object (slot numbers or V<slot>. values)
     "nz": [2], "lo": [2], "ca": [2, 3], "th": [1], "mx": [1], "am": [1], "pv": [1], "sv": [1], "ms": [1],
-    "rc": [2], "sn": [2, 3], "sc": [2, 3], "nx": [1], "gm": [2], "gl": [2], "dl": [1], "et": [2], "cp": [2], "eq": [1, 2], "sr": [1], "sd": [2],
+    "rc": [2], "sn": [2, 3], "sc": [2, 3], "nx": [1], "gm": [2], "gl": [2], "dl": [1], "et": [2], "cp": [2], "eq": [1, 2], "sr": [1], "sd": [2], "ll": [2], "ln": [1], "mt": [1],
 }
 
 
